@@ -167,11 +167,11 @@ def type_of(i, n_types, pattern):
     return i % 2                      # 'alt'
 
 
-def parametric_table(t, p_avg, cp, steep=False):
+def parametric_table(t, p_avg, cp, steep=False, xmin=0.05):
     """same layout as Orificing.run_parametric: power/flow (MW per kg/s),
     power (W), flow (kg/s), pressure drop (Pa), T_opt (K)"""
     d = np.zeros((N_PTS, 5))
-    d[:, 0] = np.geomspace(0.05, 1.0, N_PTS)
+    d[:, 0] = np.geomspace(xmin, 1.0, N_PTS)
     d[:, 1] = p_avg
     d[:, 2] = p_avg / 1e6 / d[:, 0]
     d[:, 3] = [_dp(t, m, steep) for m in d[:, 2]]
@@ -268,7 +268,7 @@ def make_orificing(values, n_groups, cutoff=0.05, delta=0.001, opt='peak coolant
     return o
 
 
-def populate(o, values, groups, n_types, pattern, cp):
+def populate(o, values, groups, n_types, pattern, cp, xmin=0.05):
     """attributes that group_by_power / run_parametric would have left"""
     pw = powers_of(values)
     n = len(pw)
@@ -284,7 +284,7 @@ def populate(o, values, groups, n_types, pattern, cp):
     tabs = []
     for t in range(n_types):
         mem = [pw[i] for i in range(n) if types[i] == t]
-        tabs.append(parametric_table(t, sum(mem) / len(mem), cp))
+        tabs.append(parametric_table(t, sum(mem) / len(mem), cp, xmin=xmin))
     o._parametric = {'asm_ids': np.array([[i, types[i]] for i in range(n)], dtype=int),
                      'asm_names': ['a', 'b'][:n_types], 'data': tabs}
     return pw, types, tabs
@@ -542,9 +542,11 @@ def cases_b(groupings, tier):
             if tier == 'thorough' and n >= 3:
                 tps.append((2, 'split'))
         for (nt, pat) in tps:
-            for lim in ('none', 'loose', 'one', 'all'):
+            for lim in ('none', 'loose', 'one', 'all', 'beyond'):
                 if lim == 'one' and k < 2:
                     continue          # with one group 'one' and 'all' coincide
+                if lim == 'beyond' and (k < 2 or max(vals) < 2.0 * min(vals)):
+                    continue
                 for (prev, steps) in (('none', 0), ('synthetic', 1), ('synthetic', 2)):
                     for opt in (('peak coolant temp', 'peak fuel temp')
                                 if tier == 'thorough' else ('peak coolant temp',)):
@@ -562,9 +564,16 @@ def run_distribute(c):
     cp = _cp()
     pw = powers_of(vals)
     m_total = sum(pw) / (cp * (T_BULK - T_IN))     # Q / (cp dT), independent of dassh
-    dp_lim = limit_setup(c['limit'], pw, groups, k, m_total)
+    beyond = c['limit'] == 'beyond'
+    dp_lim = None if beyond else limit_setup(c['limit'], pw, groups, k, m_total)
     o = make_orificing(vals, k, opt=c['opt'], dp_limit=dp_lim)
-    pw, types, tabs = populate(o, vals, groups, c['types'], c['pattern'], cp)
+    # 'beyond': a parametric sweep that covers flows only up to 1.6 x the nominal type average (so that a high-power
+    # group wants more than the sweep covers) and a limit 30 % above the largest pressure drop of the sweep - the
+    # flow at the limit is then the largest flow of the sweep (the curve is not continued)
+    pw, types, tabs = populate(o, vals, groups, c['types'], c['pattern'], cp, xmin=0.12 if beyond else 0.05)
+    if beyond:
+        dp_lim = 1.3 * max(float(np.max(t_[:, 3])) for t_ in tabs) / 1e6
+        o.orifice_input['pressure_drop_limit'] = dp_lim
     m_lim = limit_flows(dp_lim, tabs)
     res_prev, t_prev = None, None
     if c['prev'] == 'synthetic':
@@ -866,6 +875,10 @@ def cases_d(tier):
                             out.append({'values': vals, 'n': 7, 'lo': lo, 'hi': hi, 'layout': lay,
                                         'pattern': pat, 'order': order, 'limit': lim,
                                         'n_groups': k, 'scale': scale, 'renorm': renorm})
+                            if pat == 'bab' and lim == 'none' and (tier == 'thorough' or (lo, hi) == pairs[0]):
+                                # the same input with its flow rates written in lb/s / kg/min
+                                for mfr in ('lb/s', 'kg/min'):
+                                    out.append(dict(out[-1], mfr=mfr))
     return out
 
 
@@ -915,6 +928,11 @@ def run_real(c):
         scn['power']['scaling'] = scale
     if total_power is not None:
         scn['power']['total'] = total_power
+    if c.get('mfr'):
+        fac_ = {'lb/s': 1.0 / 0.45359237, 'kg/min': 60.0}[c['mfr']]
+        scn['units'] = {'mass_flow_rate': c['mfr']}
+        for a_ in scn['assign']:
+            a_[3] = {'flowrate': a_[3]['flowrate'] * fac_}
     site = 'orificing.py:run_parametric'
     r['states'] = 1
     r['traces'] = 1
@@ -992,6 +1010,16 @@ def run_real(c):
         m = [float(x) for x in np.asarray(m, dtype=float)]
         for (kind, what, obs, exp, tol) in flow_problems(m, groups, k, curve, m_total, m_lim):
             V.append(violation(kind, c, what, obs, exp, tol, site='orificing.py:distribute'))
+        # (c) the input handed to the next DASSH run carries exactly these flows (the parsed input is in kg/s
+        # whatever unit the user wrote)
+        try:
+            inp_o = o._setup_input_orifice(np.array(m))
+            got_m = [float(inp_o.data['Assignment']['ByPosition'][i][2]['flowrate']) for i in range(n)]
+            if any(abs(g_ - w_) > 1e-12 * abs(w_) for g_, w_ in zip(got_m, m)):
+                V.append(violation('flows-not-handed-on', c, 'flow rates written into the input of the next sweep are not '
+                                   'the distributed flows (kg/s)', got_m, m, 1e-12, site='orificing.py:_setup_input_orifice'))
+        except (Exception, SystemExit) as e:
+            V.append(violation('setup-input-exception', c, '%s: %s' % (type(e).__name__, str(e)[:200]), site=site_of(e)))
         capped = bool(np.any(o._dp_limit))
         r['outcome'] = V[0]['kind'] if V else ('ok-capped' if capped else 'ok')
         r['info'] = {'groups': groups, 'm': m, 'm_lim': m_lim, 'types': tnames, 'names': names}
